@@ -868,6 +868,15 @@ func (c *Ctx) checkDeclarationUndone(rule string) {
 			if !ok {
 				return
 			}
+			// the name is bound early (so that the type can refer to itself): the undo takes that binding out
+			// again whenever the declaration did not complete -- under the completion flag only, not under
+			// some other condition (such as "the name was bound before")
+			if bindF := c.fn("Zlisp.LexicalBindSymbol"); bindF != nil && len(callsOf(f, bindF)) > 0 {
+				unbound, why := c.undoRemovesBinding(f, mc, cl)
+				c.check(unbound, rule, fnName(f), "the early binding of the name is undone", d.Pos(),
+					"the deferred undo removes the binding of the name whenever the declaration did not complete",
+					"the declaration binds its name before it can still fail, and the deferred undo does not take the binding out on every failing path ("+why+"): a failed declaration of a new name leaves the name bound to the empty placeholder")
+			}
 			eachInstr(cl, func(b2 *ssa.BasicBlock, j int, x ssa.Instruction) {
 				switch y := x.(type) {
 				case *ssa.Call:
@@ -1045,4 +1054,105 @@ func (c *Ctx) checkMacrosUndone(rule string) {
 	if n < 3 {
 		c.undecided(rule, "package", "callers of GenerateBegin outside the generator", token.NoPos, fmt.Sprintf("only %d found (LoadExpressions, EvalFunction, SourceExpressions, FuncBuilder confirmed by reading)", n))
 	}
+}
+
+
+// undoRemovesBinding: the deferred closure cl (made by mc in f) calls a routine that deletes from a
+// scope's map, in a block whose only guards are completion flags: boolean variables of f that are only
+// ever assigned constants (false at the start, true when the declaration is complete).
+func (c *Ctx) undoRemovesBinding(f *ssa.Function, mc *ssa.MakeClosure, cl *ssa.Function) (bool, string) {
+	scopeMap := c.field("Scope", "Map")
+	deletes := func(g *ssa.Function) bool {
+		if g == nil || fnPkgPath(g) != zygoPath || len(g.Blocks) == 0 || scopeMap == nil {
+			return false
+		}
+		found := false
+		eachInstr(g, func(b *ssa.BasicBlock, i int, in ssa.Instruction) {
+			if call, ok := in.(*ssa.Call); ok {
+				if bi, ok := call.Call.Value.(*ssa.Builtin); ok && bi.Name() == "delete" && len(call.Call.Args) > 0 {
+					if _, isM := loadOfField(call.Call.Args[0], scopeMap); isM {
+						found = true
+					}
+				}
+			}
+		})
+		return found
+	}
+	isCompletionFlag := func(cond ssa.Value) bool {
+		core, _ := stripNot(cond)
+		u, ok := core.(*ssa.UnOp)
+		if !ok || u.Op != token.MUL {
+			return false
+		}
+		fv, ok := u.X.(*ssa.FreeVar)
+		if !ok {
+			return false
+		}
+		for k, fvv := range cl.FreeVars {
+			if fvv != fv || k >= len(mc.Bindings) {
+				continue
+			}
+			al, ok := mc.Bindings[k].(*ssa.Alloc)
+			if !ok || al.Referrers() == nil {
+				return false
+			}
+			n := 0
+			for _, fn := range withClosures(f) {
+				bad := false
+				eachInstr(fn, func(b *ssa.BasicBlock, i int, in ssa.Instruction) {
+					st, ok := in.(*ssa.Store)
+					if !ok {
+						return
+					}
+					target := st.Addr
+					if tfv, ok := target.(*ssa.FreeVar); ok && fn == cl {
+						for kk, x := range cl.FreeVars {
+							if x == tfv && kk < len(mc.Bindings) {
+								target = mc.Bindings[kk]
+							}
+						}
+					}
+					if target != ssa.Value(al) {
+						return
+					}
+					n++
+					if _, isK := st.Val.(*ssa.Const); !isK {
+						bad = true
+					}
+				})
+				if bad {
+					return false
+				}
+			}
+			return n > 0
+		}
+		return false
+	}
+	verdict, why := false, "the undo never removes a binding from a scope"
+	eachInstr(cl, func(b *ssa.BasicBlock, i int, in ssa.Instruction) {
+		call, ok := in.(*ssa.Call)
+		if !ok || !deletes(call.Call.StaticCallee()) {
+			return
+		}
+		// every condition that decides whether this block runs is a completion flag
+		okGuards := true
+		for _, d := range cl.Blocks {
+			cond, t, e := condBranch(d)
+			if cond == nil || d == b || !d.Dominates(b) {
+				continue
+			}
+			onOneSide := (t.Dominates(b) && len(t.Preds) == 1) != (e.Dominates(b) && len(e.Preds) == 1)
+			if !onOneSide {
+				continue
+			}
+			if !isCompletionFlag(cond) {
+				okGuards = false
+				why = "the removal runs only under a further condition"
+			}
+		}
+		if okGuards {
+			verdict = true
+		}
+	})
+	return verdict, why
 }
